@@ -30,6 +30,8 @@ var blindAlphabet = []model.Tok{
 // richAlphabet adds tokens with internal structure (several spellings per kind).
 var richAlphabet = append(append([]model.Tok{}, blindAlphabet...),
 	model.T(model.NUM, "-1"), model.T(model.NUM, "01"), model.T(model.NUM, "-0"), model.T(model.NUM, "12"),
+	// numerals are decimal digit strings: a leading zero is not an octal prefix (08, 09 are numbers), nothing is hexadecimal
+	model.T(model.NUM, "08"), model.T(model.NUM, "-09"), model.T(model.NUM, "0018"), model.T(model.NUM, "00"),
 	model.T(model.UID, "_"), model.T(model.UID, "A1_b"), model.T(model.UID, "length"),
 	model.T(model.QID, `""`), model.T(model.QID, `"\u0061\n\"\\"`), model.T(model.QID, `"é😀"`), model.T(model.QID, `"a b"`),
 	model.T(model.LIT, "`null`"), model.T(model.LIT, "`\"a\"`"), model.T(model.LIT, "`[1, {\"a\": \"\\`\"}]`"), model.T(model.LIT, "` {} `"),
@@ -432,6 +434,56 @@ func checkC04(r *harness.Run) harness.Coverage {
 		harness.Parallel(len(seqs), func(wk, i int) { handle(wk, seqs[i], allStyles) })
 		r.Note("structured_tokens_in_brackets", len(seqs))
 	}
+	// ---- (1d) every numeral spelling in every position the grammar has for a number (index, each slice part,
+	// alone and combined): number = ["-"] 1*digit, read in base ten whatever it looks like; things that are not
+	// numerals there (hex, signs, exponents, fractions, digit separators) are not sentences
+	{
+		numerals := []string{"0", "7", "08", "09", "-08", "010", "0018", "00", "-0", "-00", "0x10", "0X1", "0b1", "0o7", "1e1", "1_0", "+1", "--1", "1.", "1.0", "０", "١", "- 1", "1 0", "9223372036854775807", "-9223372036854775808", "0000000000000000000001"}
+		ctxs := []string{"a[N]", "[N]", "a[N:]", "a[:N]", "a[::N]", "a[N:N]", "a[N:N:N]", "[N:N:N]", "a[*][N]", "a | [N]", "a[N][N]", "[a[N], b[N:]]", "f(a[N])", "a[?b[N]]", "{k: a[:N]}", "a.b[N].c", "a[N].b[N:N]"}
+		var cases, gapsN int64
+		nw := newC04Worker()
+		for _, c := range ctxs {
+			for _, n := range numerals {
+				text := strings.Replace(c, "N", n, -1)
+				want, verdict := false, true
+				if toks, lerr := model.Lex(text); lerr == nil {
+					ks := model.Kinds(toks)
+					want = nw.strict.Accepts(ks)
+					if cok, cgap := contentOK(toks); !cok {
+						want = false
+					} else if cgap || want != (want || nw.liberal.Accepts(ks)) {
+						verdict = false
+					}
+				}
+				if len(n) >= 19 {
+					verdict = false // gap G2: numerals beyond the platform int
+				}
+				cases++
+				if !verdict {
+					gapsN++
+					continue
+				}
+				_, cerr, pn := impl.Compile(text)
+				got := cerr == nil && pn == nil
+				if pn != nil || got != want {
+					kind := "rejected-grammatical"
+					if got {
+						kind = "accepted-ungrammatical"
+					}
+					obs := "Compile returned no error"
+					if pn != nil {
+						kind, obs = "panic", pn.Error()
+					} else if cerr != nil {
+						obs = "Compile error: " + cerr.Error()
+					}
+					r.Report(harness.Violation{Kind: kind, Signature: kind + ":numeral " + n + " in " + c,
+						Input: map[string]interface{}{"expression": text, "numeral": n, "position": c}, Expected: map[bool]string{true: "compiles (a decimal digit string is a number)", false: "Compile error (not a numeral of the grammar)"}[want], Observed: obs})
+				}
+			}
+		}
+		r.Note("numeral_spellings_in_positions", cases)
+		atomic.AddInt64(&nearMisses, cases-gapsN)
+	}
 	// ---- (2) edit neighbourhood of generated sentences
 	g := univ.NewGen(univ.FullFragment())
 	completedEdit := 0
@@ -483,6 +535,73 @@ func checkC04(r *harness.Run) harness.Coverage {
 			}
 		})
 		completedEdit = w
+	}
+	// ---- (2b) closer / separator edits of LARGER sentences: every sentence of the same fragment (lists, hashes and
+	// argument lists of at most two members) up to STRUCTURAL weight 5 (thorough 6; closers and separators are
+	// free, so "[{a: b}]" has weight 4) with one closer or separator deleted, or (up to weight 4 / 5) replaced by another one or
+	// inserted anywhere: a construct that swallows the error of a missing closer is rescued by the
+	// closer of the construct around it
+	{
+		fs := univ.FullFragment()
+		fs.Weight = univ.StructuralWeight
+		fs.MaxList, fs.MaxHash, fs.MaxArgs = 2, 2, 2
+		gs := univ.NewGen(fs)
+		closers := []model.Tok{model.Fixed(model.RPAREN), model.Fixed(model.RBRACKET), model.Fixed(model.RBRACE), model.Fixed(model.COMMA), model.Fixed(model.COLON)}
+		isCloser := func(t model.Tok) bool {
+			switch t.Kind {
+			case model.RPAREN, model.RBRACKET, model.RBRACE, model.COMMA, model.COLON:
+				return true
+			}
+			return false
+		}
+		cw := 5
+		if r.Thorough() {
+			cw = 6
+		}
+		var closerEdits int64
+		for w := 3; w <= cw; w++ {
+			if r.OverBudget() {
+				break
+			}
+			ss := gs.Sentences(w)
+			harness.Parallel(len(ss), func(wk, i int) {
+				toks := gs.Tokens(ss[i])
+				n := len(toks)
+				if n <= editW {
+					return // covered by the full edit neighbourhood above
+				}
+				buf := make([]model.Tok, 0, n+1)
+				for p := 0; p < n; p++ {
+					if !isCloser(toks[p]) {
+						continue
+					}
+					buf = append(append(buf[:0], toks[:p]...), toks[p+1:]...)
+					handle(wk, buf, allStyles[:1])
+					atomic.AddInt64(&closerEdits, 1)
+					for _, c := range closers {
+						if c == toks[p] || w == cw {
+							continue // the largest weight: deletions only
+						}
+						buf = append(buf[:0], toks...)
+						buf[p] = c
+						handle(wk, buf, allStyles[:1])
+						atomic.AddInt64(&closerEdits, 1)
+					}
+				}
+				if w < cw {
+					for p := 0; p <= n; p++ {
+						for _, c := range closers {
+							buf = append(append(append(buf[:0], toks[:p]...), c), toks[p:]...)
+							handle(wk, buf, allStyles[:1])
+							atomic.AddInt64(&closerEdits, 1)
+						}
+					}
+				}
+			})
+		}
+		atomic.AddInt64(&nearMisses, closerEdits)
+		r.Note("closer_edits_of_larger_sentences", closerEdits)
+		r.Note("closer_edit_structural_weight", cw)
 	}
 	// ---- (4) byte level: every string of the lexer-class byte universe, judged by the reference
 	// lexer + G. No verdict (gap) for invalid UTF-8, control characters and raw strings containing a
